@@ -13,7 +13,7 @@ FUNCTIONS = [
 ]
 BOUNDS = {
     "quick": "screens with P=3 and P=4 plates (5-6 rows, duplicate conditions shared between candidate and batch plates), every per-plate observed pattern, every batch (subset of plate ids), every n_chunks in 1..P+1, symbolic real scores (ties reachable) plus a -inf score, every order of the chunk files, with and without the k-per-sample policy (k in 1..2)",
-    "thorough": "P=5 (7 rows), n_chunks up to P+2, k up to 3",
+    "thorough": "P up to 6 (9 rows) for coverage, up to 5 for selection, n_chunks up to P+2, policy k up to 3 on 4-6 single-sample plates, and 24 generated screen structures of up to 5 plates",
 }
 ASSUMPTIONS = [
     "the scorer is a recording stub returning a fresh symbolic real per plate (optionally one concrete -inf); NaN scores excluded",
@@ -34,6 +34,9 @@ STRUCT = {
     5: [("s1", "a", 1.0, "b", 1.0, "p0"), ("s1", "a", 1.0, "b", 1.0, "p1"), ("s2", "c", 1.0, "b", 1.0, "p2"),
         ("s2", "a", 1.0, "b", 1.0, "p3"), ("s2", "c", 1.0, "b", 1.0, "p3"), ("s1", "b", 1.0, "a", 1.0, "p4"),
         ("s1", "a", 1.0, "b", 1.0, "p4")],
+    6: [("s1", "a", 1.0, "b", 1.0, "p0"), ("s1", "a", 1.0, "b", 1.0, "p1"), ("s2", "c", 1.0, "b", 1.0, "p2"),
+        ("s2", "a", 1.0, "b", 1.0, "p3"), ("s2", "c", 1.0, "b", 1.0, "p3"), ("s1", "b", 1.0, "a", 1.0, "p4"),
+        ("s1", "a", 1.0, "b", 1.0, "p4"), ("s2", "c", 1.0, "b", 1.0, "p5"), ("s1", "a", 1.0, "", 0.0, "p5")],
 }
 # single-sample plates for the policy configurations: (sample of plate i)
 SINGLE = {4: ["s1", "s1", "s2", "s2"], 5: ["s1", "s1", "s1", "s2", "s2"], 6: ["s1", "s1", "s2", "s2", "s3", "s1"]}
@@ -42,24 +45,42 @@ SINGLE = {4: ["s1", "s1", "s2", "s2"], 5: ["s1", "s1", "s1", "s2", "s2"], 6: ["s
 def configs(tier, seed):
     q = tier == "quick"
     out = []
-    for P in ((3, 4) if q else (3, 4, 5)):
+    for P in ((3, 4) if q else (3, 4, 5, 6)):
         out.append(dict(name="coverage P=%d" % P, h="coverage", P=P, extra_chunks=1 if q else 2))
-    for P in ((3,) if q else (3, 4)):
+    for P in ((3,) if q else (3, 4, 5)):
         out.append(dict(name="select P=%d" % P, h="select", P=P, policy=None, neginf=False))
-    out.append(dict(name="select P=3 with -inf", h="select", P=3, policy=None, neginf=True))
+    for P in ((3,) if q else (3, 4)):
+        out.append(dict(name="select P=%d with -inf" % P, h="select", P=P, policy=None, neginf=True))
     for k in ((1, 2) if q else (1, 2, 3)):
-        out.append(dict(name="select policy k=%d P=%d" % (k, 4 if q else 5), h="select", P=4 if q else 5, policy=k, neginf=False))
-    out.append(dict(name="cli P=3", h="cli", P=3))
+        for P in ((4,) if q else (4, 5, 6)):
+            out.append(dict(name="select policy k=%d P=%d" % (k, P), h="select", P=P, policy=k, neginf=False))
+    for P in ((3,) if q else (3, 4)):
+        out.append(dict(name="cli P=%d" % P, h="cli", P=P))
     out.append(dict(name="holder", h="holder"))
+    if not q:
+        # generated screen structures (retro_common.generated_family) with at most 5 plates
+        from .retro_common import family
+        n = 0
+        for k in range(64):
+            rows = family("G%d" % k)
+            P = len(set(r[5] for r in rows))
+            if P > 5 or n >= N_GENERATED:
+                continue
+            n += 1
+            out.append(dict(name="coverage G%d (%d plates, %d rows)" % (k, P, len(rows)), h="coverage", P=P, fam="G%d" % k, extra_chunks=1))
+            out.append(dict(name="select G%d (%d plates, %d rows)" % (k, P, len(rows)), h="select", P=P, fam="G%d" % k, policy=None, neginf=False))
     return out
+
+
+N_GENERATED = 24
 
 
 def fixtures(cfg):
     v = dict(n_chunks=2, pol_k=2)
-    for i in range(6):
+    for i in range(7):
         v["obs%d" % i] = i == 0
         v["bat%d" % i] = i == 1
-        v["sc%d" % i] = [0.3, 0.1, 0.1, 0.7, 0.2, 0.9][i]
+        v["sc%d" % i] = [0.3, 0.1, 0.1, 0.7, 0.2, 0.9, 0.15][i]
         v["ord%d" % i] = 0
     v2 = dict(v, n_chunks=4, bat1=False, obs0=False, obs2=True, ord0=1)
     v3 = dict(v, n_chunks=1, bat1=False, bat0=True, obs0=False)
@@ -82,6 +103,9 @@ def _setup(ctx, cfg, single=False):
     P = cfg["P"]
     if single:
         rows = [(SINGLE[P][i], "a", float(i + 1), "b", 1.0, "p%d" % i) for i in range(P)]
+    elif cfg.get("fam"):
+        from .retro_common import family
+        rows = family(cfg["fam"])
     else:
         rows = STRUCT[P]
     pnames = sorted(set(r[5] for r in rows))
